@@ -332,11 +332,23 @@ def group_chain(rep, tier, timeout):
         defaults = {"taper": [ONE], "chord": np.ones(ny), "sweep": [ZERO], "xshear": np.zeros(ny), "span": [cur_span], "yshear": np.zeros(ny),
                     "dihedral": [ZERO], "zshear": np.zeros(ny), "twist": np.zeros(ny)}
 
-        def chain(dvs):
+        # the order in which the *group* chains its transformations, read off its own connections (mesh -> in_mesh)
+        nxt = {}
+        for tgt, src in prob.model._conn_global_abs_in2out.items():
+            if tgt.endswith(".in_mesh") and src.endswith(".mesh"):
+                nxt[src.split(".")[-2]] = tgt.split(".")[-2]
+        actual = [(set(names) - set(nxt.values())).pop()] if len(set(names) - set(nxt.values())) == 1 else ["taper"]
+        while actual[-1] in nxt and len(actual) < len(names):
+            actual.append(nxt[actual[-1]])
+
+        def chain(dvs, order=None):
+            order = order or actual
+            if order[0] != "taper":
+                raise RuntimeError("the group's chain does not start with taper: %r" % (order,))
             comps["taper"].comp.options["mesh"] = m
             try:
                 cur = None
-                for n in names:
+                for n in order:
                     sc = comps[n]
                     ins = {dv_of[n]: dvs[dv_of[n]]}
                     if n != "taper":
@@ -374,9 +386,61 @@ def group_chain(rep, tier, timeout):
                 obs.append(oblig.Ob("group taper keeps the reference axis [%d,%d]" % (j, k), lhs=rap * outp[nx - 1, j, k] + (ONE - rap) * outp[0, j, k], rhs=ref[j, k], assume=massume,
                                     meta={"family": "taper through the geometry group acts about the surface's reference axis", "kind": "taper", "idx": [0, j, k]}))
 
-        def rp(ob, env, surf=surf, m=m, nx=nx, ny=ny, rapv=rapv, symm=symm):
+        # every design variable away from its default at once: the group's own chain must give what the documented order
+        # taper > chord > sweep > x-shear > span > y-shear > dihedral > z-shear > twist gives (same DAG when the orders agree)
+        alld = {"taper": [tpv], "chord": ch, "sweep": [var("sweep")], "xshear": symarray("xshear", (ny,)), "span": [var("span")],
+                "yshear": symarray("yshear", (ny,)), "dihedral": [var("dihedral")], "zshear": symarray("zshear", (ny,)), "twist": tw}
+        if not symm:
+            alld["yshear"][(ny - 1) // 2] = ZERO
+        else:
+            alld["yshear"][ny - 1] = ZERO
+        out_actual, out_doc = chain(alld), chain(alld, order=names)
+        obs += idents("group chain order", out_actual, out_doc, assume=massume + [gt(var("span"), 0), gt(tpv, 0)],
+                      meta={"family": "the group chains the transformations in the documented order (taper, chord, sweep, x-shear, span, y-shear, dihedral, z-shear, twist)", "kind": "order"})
+
+        def rp(ob, env, surf=surf, m=m, nx=nx, ny=ny, rapv=rapv, symm=symm, actual=actual):
             envf = model.FillEnv(env)
             mv = num_inputs({"m": m}, envf)["m"]
+            if ob.meta["kind"] == "order":
+                # real group against the stand-alone transformations applied one after the other in the documented order
+                import openaerostruct.geometry.geometry_mesh_transformations as T
+
+                r = 0.25 if rapv is None else rapv
+                vals = {"taper": 0.7, "chord": 1.0 + 0.1 * np.arange(ny), "sweep": 12.0, "xshear": 0.05 * np.arange(ny), "span": 1.6 * float((mv[0, -1, 1] - mv[0, 0, 1]) * (2 if symm else 1)),
+                        "yshear": 0.04 * (np.arange(ny) - (ny - 1 if symm else (ny - 1) // 2)), "dihedral": 8.0, "zshear": 0.03 * np.arange(ny), "twist": 2.0 + np.arange(ny)}
+                if not symm:
+                    for k_ in ("chord", "xshear", "zshear", "twist"):
+                        vals[k_] = np.concatenate([vals[k_][: ny // 2 + 1], vals[k_][: ny // 2][::-1]])
+                    vals["yshear"] = np.concatenate([vals["yshear"][: ny // 2 + 1], -vals["yshear"][: ny // 2][::-1]])
+                s2 = dict(surf, mesh=mv)
+                p = om.Problem(reports=False)
+                p.model.add_subsystem("g", GeometryMesh(surface=s2), promotes=["*"])
+                p.setup()
+                for k_, v_ in vals.items():
+                    p.set_val(k_, v_)
+                p.run_model()
+                got = np.array(p.get_val("mesh"))
+                cls = {"taper": "Taper", "scale_x": "ScaleX", "sweep": "Sweep", "shear_x": "ShearX", "stretch": "Stretch", "shear_y": "ShearY", "dihedral": "Dihedral", "shear_z": "ShearZ", "rotate": "Rotate"}
+                cur = mv
+                for n_ in names:
+                    kw = {"mesh_shape": mv.shape}
+                    if n_ == "taper":
+                        kw = {"mesh": cur}
+                    if n_ in ("taper", "sweep", "stretch", "dihedral", "rotate"):
+                        kw["symmetry"] = symm
+                    if n_ in ("taper", "scale_x", "stretch", "rotate"):
+                        kw["ref_axis_pos"] = r
+                    kw["val"] = vals[dv_of[n_]]
+                    q = om.Problem(reports=False)
+                    q.model.add_subsystem("c", getattr(T, cls[n_])(**kw), promotes=["*"])
+                    q.setup()
+                    q.set_val(dv_of[n_], vals[dv_of[n_]])
+                    if n_ != "taper":
+                        q.set_val("in_mesh", cur)
+                    q.run_model()
+                    cur = np.array(q.get_val("mesh"))
+                d = float(np.abs(got - cur).max())
+                return d > 1e-9, "GeometryMesh (chain %s) differs from the transformations applied in the documented order by %.4g m" % (" > ".join(actual), d)
             s2 = dict(surf, mesh=mv)
             r = 0.25 if rapv is None else rapv
             rr = r * mv[-1] + (1 - r) * mv[0]
